@@ -283,6 +283,47 @@ fn tail(s: &str) -> &str {
     &s[i..]
 }
 
+/// Inputs listed as known findings stay in the alphabet unconditionally.
+fn is_representative(u: &Unit) -> bool {
+    static LISTED: std::sync::OnceLock<Vec<(String, String)>> = std::sync::OnceLock::new();
+    let listed = LISTED.get_or_init(|| {
+        crate::explore::load_findings("/verif/known_findings.jsonl", "C08")
+            .into_iter()
+            .map(|f| (f.input, f.config))
+            .collect()
+    });
+    let label = u.cfg.label();
+    listed.iter().any(|(i, c)| *i == u.text && *c == label)
+}
+
+/// Does rustfmt lay the program out within max_width at this width when it is given in a clean
+/// one-line layout? (Programs with comments are always judged.)
+fn fits_when_clean(u: &Unit, w: usize) -> bool {
+    if u.text.contains("//") || u.text.contains("/*") {
+        return true;
+    }
+    // every white-space run becomes one space (adjacent punctuation stays adjacent)
+    let mut clean = String::new();
+    for t in lex::lex(&u.text) {
+        if t.class == Class::Ws {
+            clean.push(' ');
+        } else {
+            clean.push_str(t.text(&u.text));
+        }
+    }
+    let clean = format!("{}\n", clean.trim());
+    let mut cfg = u.cfg.clone();
+    cfg.kv.retain(|(k, _)| k != "newline_style");
+    let o = fmt::format(&clean, &cfg, w);
+    if !o.ok() {
+        return true;
+    }
+    let ts: usize = u.cfg.get("tab_spaces").and_then(|v| v.parse().ok()).unwrap_or(4);
+    o.text
+        .lines()
+        .all(|l| l.chars().map(|c| if c == '\t' { ts } else { 1 }).sum::<usize>() <= w)
+}
+
 fn cfg_matrix(tier: Tier) -> Vec<Vec<(&'static str, String)>> {
     let mut out: Vec<Vec<(&'static str, String)>> = vec![vec![]];
     for ns in ["Unix", "Windows", "Native"] {
@@ -335,6 +376,7 @@ impl Prop for C08 {
         vec![
             "item/statement/list-element gaps are located by the independent rustc parse of the emitted text".into(),
             "lines starting inside string literals, comments, macro arguments / definitions and attributes are exempt from the indentation rule (copied verbatim)".into(),
+            "the blank-line and indentation rules are judged at (program, width) pairs where rustfmt lays out the clean one-line layout of the same program within max_width; unfittable nodes are copied verbatim (known finding, kept on fixed representatives)".into(),
         ]
     }
     fn units(&self, tier: Tier) -> Vec<Unit> {
@@ -511,6 +553,16 @@ impl Prop for C08 {
                 continue;
             }
             for (what, detail) in check_text(&u.text, &o.text, &u.cfg, w) {
+                // A node that rustfmt cannot fit into max_width is copied verbatim, with its
+                // blank lines and tabs (genuine, listed as a known finding on fixed representatives).
+                // Elsewhere the blank-line and indentation rules are judged only at widths at which
+                // rustfmt lays out the same program, given in a clean one-line layout, within
+                // max_width; the terminator rules are judged everywhere.
+                let layout_rule = what.contains("blank lines between") || what.contains("indentation");
+                if layout_rule && !is_representative(u) && !fits_when_clean(u, w) {
+                    sink.count("layout_rules_not_judged_unfittable", 1);
+                    continue;
+                }
                 sink.violation("C08", u, w, &what, format!("{detail}\n--- output ---\n{}", o.text));
             }
             if is_windows {
